@@ -4,7 +4,7 @@ HARNESS = ["dht/c10_test.go"]
 GO_TEST = "TestVerifC10"
 RUN_MODULE = "Run_C10"
 COQ_TARGETS = ["Corr/Run_C10.vo", "Proofs/ClientRpcProofs.vo", "Proofs/PeerRecordProofs.vo"]
-N = {"quick": 450, "thorough": 6000}
+N = {"quick": 450, "thorough": 5000}
 RULE = ("(a) the abstract response domain instantiated to concrete protobuf messages - per ProtocolMessenger method: sender error, nil message, "
         "7 record shapes (absent / matching / other value / other key / empty / key only / random) x 20 closer-peer list shapes built from 16 "
         "peer-record shapes (no address, empty id, undecodable only, mixed, exactly at / one under / one over the 8 KiB limit with 1-byte and "
